@@ -121,9 +121,52 @@ pub fn log_lines() -> u64 {
     LOG_LINES.with(|n| *n.borrow())
 }
 
+/// Progress counter and the events of the scenario in progress, for the watchdog.
+pub static PROGRESS: std::sync::atomic::AtomicU64 = std::sync::atomic::AtomicU64::new(0);
+pub static CURRENT: std::sync::Mutex<Vec<String>> = std::sync::Mutex::new(Vec::new());
+
+/// Code under test that spins inside a single poll (or dead-locks) would stop the harness without a
+/// trace.  The watchdog writes the events of the scenario in progress plus a `hung` event to
+/// `<out>.hung` and ends the process with status 3; the driver lets TLC reject that scenario.
+pub fn start_watchdog(out: String, secs: u64) {
+    std::thread::spawn(move || {
+        let mut last = PROGRESS.load(std::sync::atomic::Ordering::SeqCst);
+        let mut quiet = 0u64;
+        loop {
+            std::thread::sleep(std::time::Duration::from_secs(1));
+            let now = PROGRESS.load(std::sync::atomic::Ordering::SeqCst);
+            if now != last {
+                last = now;
+                quiet = 0;
+                continue;
+            }
+            quiet += 1;
+            if quiet >= secs {
+                let mut lines = CURRENT.lock().map(|c| c.clone()).unwrap_or_default();
+                lines.push("{\"ev\":\"hung\"}".to_string());
+                let _ = std::fs::write(format!("{out}.hung"), lines.join("\n") + "\n");
+                std::process::exit(3);
+            }
+        }
+    });
+}
+
 /// Emit one NDJSON event.
 pub fn ev(v: serde_json::Value) {
     let s = serde_json::to_string(&v).unwrap();
+    PROGRESS.fetch_add(1, std::sync::atomic::Ordering::SeqCst);
+    if let Ok(mut cur) = CURRENT.lock() {
+        if s.contains("\"ev\":\"reset\"") {
+            cur.clear();
+            // everything before this scenario is complete: put it on disk
+            LOG.with(|l| {
+                if let Some(w) = l.borrow_mut().as_mut() {
+                    let _ = w.flush();
+                }
+            });
+        }
+        cur.push(s.clone());
+    }
     CAPTURE.with(|c| {
         if let Some(c) = c.borrow_mut().as_mut() {
             c.push(s.clone());
